@@ -277,7 +277,51 @@ def rule_R2(ctx, f):
             rm = [c for c in u.calls_to("HashMap::remove") if peel(c.args[0]) == SELF_FIELD("collectors_by_id")]
             acc = [a for a in was[0].args if a[0] == "var"]
             ok = ok and len(rm) == 1 and len(acc) == 1 and peel(rm[0].args[1]) == acc[0]
+        if not ok:
+            ok = _unregister_sorted_dedup_form(u) is not None
         ctx.ob(rid, "unregister|collector-id", ok, "unregister must compute the collector id as the wrapping sum of the distinct descriptor ids and remove that key", site=u.raw["span"]["at"])
+
+
+def _unregister_sorted_dedup_form(u):
+    """`let mut ids: Vec<u64> = c.desc().iter().map(|d| d.id).collect(); ids.sort(); ids.dedup();` and the collector id the wrapping sum of every element of
+    that vector, used as the key removed from collectors_by_id.  Returns the vector's term, or None."""
+    from pvrules import seqeval
+    from . import hash_common as hc_
+    for c in u.calls_to(["Iterator::collect"]):
+        sq = seqeval.iter_seq(u, c.args[0])
+        if not (sq and len(sq) == 1 and sq[0][0] == "each" and is_call(sq[0][1], "Collector::desc") and sq[0][2] == (("field", "id"),)
+                and any(x == P2 for x in subterms(sq[0][1]))):
+            continue
+        V = c.result_term()
+        muts = [x for x in u.calls() if x.args and peel(x.args[0], transparent=["DerefMut::deref_mut"]) == V and
+                x.matches(["slice::sort", "slice::sort_unstable", "Vec::dedup", "Vec::push", "Vec::insert", "Vec::remove", "Vec::pop", "Vec::truncate", "Vec::clear", "Vec::retain",
+                           "Vec::swap_remove", "Vec::drain", "Vec::append", "Vec::extend", "Extend::extend", "slice::reverse", "Vec::dedup_by_key", "Vec::dedup_by"])]
+        sorts = [x for x in muts if x.matches(["slice::sort", "slice::sort_unstable"])]
+        ded = [x for x in muts if x.matches("Vec::dedup")]
+        if not (len(muts) == 2 and len(sorts) == 1 and len(ded) == 1 and count_range(u, [sorts[0].bb]) == (1, 1) and count_range(u, [ded[0].bb]) == (1, 1)
+                and u.dominates(sorts[0].bb, ded[0].bb) and sorts[0].bb != ded[0].bb):
+            continue
+        was = [x for x in u.calls_to("wrapping_add")]
+        rm = [x for x in u.calls_to("HashMap::remove") if peel(x.args[0]) == SELF_FIELD("collectors_by_id")]
+        if len(was) != 1 or len(rm) != 1:
+            continue
+        w = was[0]
+        accs = [a for a in w.args if isinstance(a, tuple) and a[0] == "var"]
+        elems = [a for a in w.args if not (isinstance(a, tuple) and a[0] == "var")]
+        if len(accs) != 1 or len(elems) != 1:
+            continue
+        e = elem_of(peel(elems[0]))
+        if not (e and e[0] == V and not e[2] and not [a for a in e[1] if a not in ("iter", "into_iter", "copied", "cloned")]):
+            continue
+        alts = u.var_alts(accs[0][1])
+        if not (len(alts) == 2 and any(a == w.result_term() for a in alts) and any(a[0] == "const" and a[3] == "0" for a in alts)):
+            continue
+        if hc_.every_element(u, w) is not True or not u.dominates(ded[0].bb, w.bb) or not u.dominates(w.bb, rm[0].bb) and w.bb not in u.reach(0, avoid_blocks=[rm[0].bb]):
+            continue
+        if peel(rm[0].args[1]) != accs[0] or not u.dominates(ded[0].bb, rm[0].bb):
+            continue
+        return V
+    return None
 
 
 def _same_entries_owned(f, t, local):
@@ -385,6 +429,10 @@ def rule_R4(ctx, f):
             e = elem_of(peel(rms[0].args[1]))
             pushes = [peel(c.args[0]) for c in u.calls_to(["Vec::push", "HashSet::insert"]) if _desc_elem(u, c.args[1]) == "id"]
             ok = bool(e) and pushes and e[0] == pushes[0]
+            if not ok and bool(e):
+                sd = _unregister_sorted_dedup_form(u)
+                from . import hash_common as hc_
+                ok = sd is not None and e[0] == sd and not [a for a in e[1] if a not in ("iter", "into_iter", "copied", "cloned", "drain")] and hc_.every_element(u, rms[0]) is True
         ctx.ob(rid, "unregister|removes-its-ids", ok, "unregister must remove from desc_ids every id it collected from c.desc()", site=rms[0].span if rms else u.raw["span"]["at"])
     writers = {}
     for k in f.order:
